@@ -34,6 +34,14 @@ impl FrameBatch {
     Self { inner: FrameBatchInner::Empty }
   }
 
+  /// The error senders return instead of building a batch of more than `MAX_FRAMES` frames.
+  pub(crate) fn too_many_frames_error() -> crate::error::ZmqError {
+    crate::error::ZmqError::InvalidMessage(format!(
+      "multipart message exceeds the supported maximum of {} frames (including envelope frames)",
+      Self::MAX_FRAMES
+    ))
+  }
+
   pub fn with_capacity(capacity: usize) -> Self {
     if capacity <= 2 {
       Self::new()
